@@ -116,7 +116,8 @@ register('C16', 'c16::')
 register('C16', 'c02::')
 register('C02', 'c02::')
 register('C12', 'c12::', bounded='point lists of length 1..=4 (one harness per length), i8 components, no overflow assumed; unwinding assertions on')
-register('C17', 'c17::left_', args=['-Z', 'unstable-options', '--no-overflow-checks'])
+register('C17', 'c17::left_u8', args=['-Z', 'unstable-options', '--no-overflow-checks'])
+register('C17', 'c17::left_i8', tier='thorough', args=['-Z', 'unstable-options', '--no-overflow-checks'])
 register('C17', 'c17p::', bounded='iter::Product / Sum of Matrix2, Quaternion, Basis3 over at most 3 elements of the 8-bit ring W8; unwinding assertions on')
 register('C17', 'c17::sums', bounded='iterators of at most 4 (Vector3<i32>) / 3 (Rad<f32>) elements; unwinding assertions on', args=['-Z', 'unstable-options', '--no-overflow-checks'])
 register('C19', 'c19::')
